@@ -31,6 +31,7 @@ static STATE: OnceLock<State> = OnceLock::new();
 fn state() -> &'static State {
     STATE.get_or_init(|| {
         voracles::runner::install_panic_hook();
+        voracles::checks::LIGHT.store(true, std::sync::atomic::Ordering::Relaxed);
         let u: Universe = serde_json::from_str(&std::fs::read_to_string("/verif/work/fuzz/universe.json").expect("fuzz universe")).expect("json");
         State { u, subjects: uni::subjects(), lay: uni::layouts(), known: BTreeMap::new(), strict: std::env::var_os("VERIF_FUZZ_STRICT").is_some() }
     })
